@@ -1,7 +1,7 @@
 """C12 - plates are observed atomically; revealing is exact, monotone, value-preserving."""
 import json
 
-from .common import cli_main, all_same, concrete_screen
+from .common import cli_main, cli_argv, all_same, concrete_screen
 
 PROPERTY = "C12"
 LEVEL = "model_checking"
@@ -9,7 +9,7 @@ FUNCTIONS = [
     "batchie.data.Screen.__init__ (per-plate mask uniformity)", "batchie.data.Screen.set_observed",
     "batchie.retrospective.reveal_plates / mask_screen / unmask_screen",
     "batchie.data.Screen.save_h5 / load_h5",
-    "batchie.cli.reveal_plate.main", "batchie.cli.extract_screen_metadata.main (argument parsers stubbed)",
+    "batchie.cli.reveal_plate.main", "batchie.cli.extract_screen_metadata.main (through get_parser / get_args with sys.argv set; class lookup by name answered from the loaded modules)",
 ]
 BOUNDS = {
     "quick": "4 rows on 3 plates (two screens), every initial per-plate status, symbolic observation values, every history of 2 operations from {reveal(<=2 plate ids incl. repeated / already observed / unknown ids -1 and n_plates), mask, unmask, save+load, reveal via CLI}; construction: every per-row mask on 4 rows; one screen of 300 single-experiment plates with reveals of ids 255, 256, 299 (thorough: 0, 17 too)",
@@ -91,7 +91,7 @@ def _meta(ctx, screen, tag):
     fn = ctx.tmp("meta_screen_%s.h5" % tag)
     out = ctx.tmp("meta_%s.json" % tag)
     screen.save_h5(fn)
-    cli_main(ctx, "batchie.cli.extract_screen_metadata", screen=fn, output=out)
+    cli_argv(ctx, "batchie.cli.extract_screen_metadata", ["--screen", fn, "--output", out])
     return json.loads(ctx.read_text(out))
 
 
@@ -137,7 +137,7 @@ def h_history(ctx, cfg):
                 else:
                     fin, fout = ctx.tmp("in_%d.h5" % step), ctx.tmp("out_%d.h5" % step)
                     s.save_h5(fin)
-                    cli_main(ctx, "batchie.cli.reveal_plate", screen=fin, output=fout, plate_id=ids)
+                    cli_argv(ctx, "batchie.cli.reveal_plate", ["--screen", fin, "--output", fout, "--plate-id"] + ids)
                     s2 = data.Screen.load_h5(fout)
             except ValueError:
                 allzero = True
@@ -209,7 +209,7 @@ def h_many(ctx, cfg):
     if via_cli:
         fin, fout = ctx.tmp("many_in.h5"), ctx.tmp("many_out.h5")
         s.save_h5(fin)
-        cli_main(ctx, "batchie.cli.reveal_plate", screen=fin, output=fout, plate_id=[a])
+        cli_argv(ctx, "batchie.cli.reveal_plate", ["--screen", fin, "--output", fout, "--plate-id", a])
         s1 = data.Screen.load_h5(fout)
     else:
         s1 = retro.reveal_plates(s, [a])
